@@ -98,6 +98,11 @@ theorem unclamped_variant_violates :
     ∧ resident (run (fun _ => 0) (init 8 0) [.get "a".toList, .get "b".toList, .get "c".toList]) = 3 := by
   decide
 
+/-- Obligation on the extracted facts: no eviction callback is installed on the shards' LRU, so an
+eviction does nothing but drop the least recently used key (`LRU.insert`): the entry object is
+neither re-inserted nor handed to another key. -/
+theorem facts_eviction_only_drops : Facts.lruOnEvictedSites = [] := by decide
+
 /-- simulation relation between the sharded LRU and the shard map of the concurrent model -/
 def Sim (hash : Str → Nat) (enc : Str → Key) (d : Disp) (s : Sys.State) : Prop :=
   (∀ k, s.shard (enc k) = (absMap hash d k).map Eid.mk) ∧ s.next = d.next
